@@ -179,6 +179,18 @@ impl Prop for C12 {
             .into()
     }
     fn witness(&self, _ctx: &Ctx, f: &crate::findings::Finding) -> Result<bool, Fail> {
+        // witness {"kind":"trivia_pair","plain":…,"with_trivia":…}: a source and the same source with trivia put between
+        // two tokens; still fails iff the two differ in acceptance or in the node kinds outside white space
+        if f.witness["kind"].as_str() == Some("trivia_pair") {
+            let a = f.witness["plain"].as_str().unwrap_or("");
+            let b = f.witness["with_trivia"].as_str().unwrap_or("");
+            let (ra, rb) = (parse_sk(a), parse_sk(b));
+            let _ = take_bad_token();
+            if ra.is_none() {
+                return Err(Fail::new(format!("witness of {}: the plain source is rejected", f.id), json!({"plain": a})));
+            }
+            return Ok(ra != rb);
+        }
         // witness {"kind":"k3_layout","layout_a":…,"layout_b":…}: still fails iff exactly one layout is rejected, in the listed way
         if f.witness["kind"].as_str() != Some("k3_layout") {
             return Ok(false);
